@@ -151,7 +151,7 @@ class Minimiser:
     def run(self, case):
         if "concurrent" in case:
             return self.run_concurrent(case)
-        if "header_alone" in case:  # one header, one toolchain: nothing to shrink
+        if "header_alone" in case or "edge_program" in case:  # nothing to shrink
             self.evals += 1
             return copy.deepcopy(case), self.fails(case)
         if "session" in case:
@@ -218,6 +218,8 @@ class Minimiser:
         if case.get("probe", {}).get("api"):
             case = self.ddmin_list(case, lambda c: c["probe"]["api"], lambda c, v: (c["probe"].__setitem__("api", v), c)[1], "api fragments")
         case = self.try_one(case, "canonical include order", lambda c: c["probe"].__setitem__("include_order", None))
+        if case.get("probe", {}).get("user_macros"):
+            case = self.try_one(case, "no user macros", lambda c: c["probe"].__setitem__("user_macros", False))
         # 5. toolchain
         if self.vclass == "TOOLCHAIN_DEPENDENT" and "b" not in case["toolchain"] and self.hint.get("toolchain_b"):
             # found by a matrix plan or by asking the other configurations after a double reject:
